@@ -11,7 +11,7 @@ After every op the harness waits until the daemon has processed it (barrier on t
 connection, then on every other live connection), collects what each connection received, and
 compares, connection by connection, with what the model's `step` emitted for the same op.
 """
-import os, re, pwd, time, subprocess, socket, signal
+import os, re, pwd, time, subprocess, socket, signal, select
 from .common import *
 from . import bus, wiregen, build, script
 
@@ -196,6 +196,29 @@ class ImplRun:
                 raise DaemonStalled("connection %d got no answer from the bus within %.0f s; daemon stderr: %s" % (cid, timeout, self.d.stderr()[-1500:]))
             cl._fill(min(left, 0.31) if getattr(self, "eof_unreliable", False) else left)
 
+    def _wait_consumed(self, cid, timeout=8.0):
+        """a connection that writes raw bytes is not synchronised with by a Ping of its own: wait until the daemon has taken
+        everything it wrote out of the socket (the kernel's count of bytes written and not yet read by the peer is zero);
+        the round trips that follow then see all of it dispatched"""
+        import fcntl, termios, struct as _st
+        cl = self.c.get(cid)
+        if cl is None:
+            return
+        t0 = time.time()
+        while time.time() - t0 < timeout:
+            try:
+                left = _st.unpack("i", fcntl.ioctl(cl.sock.fileno(), termios.TIOCOUTQ, b"\0\0\0\0"))[0]
+            except OSError:
+                return
+            if left <= 0:
+                return
+            # (a connection the daemon has dropped is never read again: its end-of-file shows up here)
+            r, _, _ = select.select([cl.sock], [], [], 0.002)
+            if r:
+                cl._fill(0)
+                if cl.eof:
+                    return
+
     def _ctl_sync(self, n=2):
         """round trips through bus_dispatch on the control connection: every deferred action of the
         daemon (zero-interval timeouts such as the expiry of a vanished callee's slots) has run by then"""
@@ -344,6 +367,7 @@ class ImplRun:
         elif op[0] == "raw":
             if op[1] in self.c and op[1] not in self.closed:
                 self.c[op[1]].send_raw(op[2])
+                self._wait_consumed(op[1])
                 if len(op) > 3 and op[3] and op[1] not in self.dirty:
                     actor = op[1]      # whole valid messages: the stream is at a message boundary, the barrier may follow
                 else:
